@@ -64,6 +64,8 @@ WC_CASES = [
     # ... a chain class that keeps the outline position under a bundle key of its own
     {'outline': [['step', 'a'], ['while', 'p', [['step', 'b'], ['step', 'c']]], ['step', 'd']],
      'behaviour': {'rets': {}, 'preds': {'p': [True, True, False]}, 'bodies': {'b': [['out', 'o.b', 1]]}, 'stepper_key': 'pv_outline_position'}},
+    # ... and a chain whose last step asks for an external reply with a plain Wait command (checkpointed while it waits)
+    {'outline': [['step', 'a'], ['step', 'b']], 'behaviour': {'rets': {'b': [{'__wait__': 1}]}, 'preds': {}, 'bodies': {'a': [['ctx', 'seen', [1]]]}}},
 ]
 MEDIA = ('pickle', 'copy', 'yaml')
 
